@@ -7,7 +7,8 @@ P="$1"; D="$2"; ID="${3:-$P-1}"
 OUT=/verif/seeded/$ID
 cd "$D" || exit 2
 [ -f seed_patch.diff ] && [ -f seed_meta.json ] || { echo "missing seed files in $D"; exit 2; }
-DEMO=$(python3 -c "import json;print(json.load(open('seed_meta.json'))['demo_cmd'])" 2>/dev/null)
+# a trailing remark in parentheses after the command is not part of the command
+DEMO=$(python3 -c "import json,re;print(re.sub(r'\s+\((?:[^()]|\([^()]*\))*\)\s*$','',json.load(open('seed_meta.json'))['demo_cmd']))" 2>/dev/null)
 log() { echo "[seed $ID] $*"; }
 # make sure the patch is what is applied
 git stash list >/dev/null
